@@ -67,3 +67,17 @@ def cis_trans(ri, rj):
         return None, False
     t = _dihedral_deg(np.array(c1i.coordinates), np.array(ni.coordinates), np.array(nj.coordinates), np.array(c1j.coordinates))
     return ("c" if -90.0 < t < 90.0 else "t"), abs(abs(t) - 90.0) < 1e-6
+
+
+def base_normal(r):
+    """unit normal of the base plane: purines through N9, N7, N3, pyrimidines through N1, C4, O2 (cross product of the two
+    vectors from the glycosidic nitrogen); None when one of the three atoms is missing"""
+    import numpy as np
+    names = ("N9", "N7", "N3") if r.one_letter_name in "AG" else ("N1", "C4", "O2")
+    atoms = [r.find_atom(n) for n in names]
+    if any(a is None for a in atoms):
+        return None
+    p0, p1, p2 = (np.array(a.coordinates, dtype=float) for a in atoms)
+    n = np.cross(p1 - p0, p2 - p0)
+    ln = float(np.linalg.norm(n))
+    return n / ln if ln else n
